@@ -121,15 +121,44 @@ theorem sort_subset (across back : Inst → Option Inst) (set : List Inst) (fuel
           · simp only [hn, ↓reduceIte] at h; exact ih nxt h
   exact this fuel first hw
 
-/-
-  NOT YET PROVED in full generality (kept at full strength; covered by the watchdog of the correspondence run):
-  theorem sort_terminates (back : Inst → Option Inst) (N : Nat)
-      (hinj : ∀ a b c, back a = some c → back b = some c → a = b) (hbound : ∀ a b, back a = some b → b < N) :
-      ∀ set first fuel, first < N → N < fuel → walk back set first fuel first = walk back set first (N + 1) first
-  -- i.e. with injective links (C02's invariant for a 1:1 association) over N instances the loop ends within
-  -- N+1 iterations from ANY starting member of ANY set.  The chain and ring theorems above prove
-  -- termination for the sets the statement describes (the result is the same for every sufficient fuel).
--/
+/-- the call always terminates: with injective links (what C02's invariant gives for a one-to-one
+    association) over `N` instances, the loop started at ANY member `first < N` of ANY set ends within `N`
+    iterations — giving it more fuel never changes the walk, hence never changes the result -/
+theorem sort_terminates (back : Inst → Option Inst) (N : Nat)
+    (hinj : ∀ a b c, back a = some c → back b = some c → a = b) (hbound : ∀ a b, back a = some b → b < N)
+    (set : List Inst) (first : Inst) (hf : first < N) (fuel : Nat) (hfuel : N ≤ fuel) :
+    walk back set first fuel first = walk back set first N first := by
+  have hN : 1 ≤ N := Nat.lt_of_le_of_lt (Nat.zero_le first) hf
+  have inv : WalkInv back N first first [first] :=
+    ⟨by simp, fun v hv => by simp at hv; subst hv; exact hf, by simp,
+     fun v hv hvf => by simp at hv; exact absurd hv hvf⟩
+  have h := walk_stable back set N first hinj hbound (N - 1) [first] first inv (by simp) fuel (by omega)
+  have hN' : N - 1 + 1 = N := by omega
+  rw [hN'] at h; exact h
+
+theorem sort_result_fuel_independent (across back : Inst → Option Inst) (N : Nat)
+    (hinj : ∀ a b c, back a = some c → back b = some c → a = b) (hbound : ∀ a b, back a = some b → b < N)
+    (set : List Inst) (hset : ∀ x ∈ set, x < N) (fuel : Nat) (hfuel : N ≤ fuel) :
+    sortReflexive across back set fuel = sortReflexive across back set N := by
+  unfold sortReflexive
+  congr 1
+  have hsub : ∀ first ∈ firsts across set, first ∈ set := by
+    intro first hfirst
+    simp only [firsts] at hfirst
+    by_cases he : (set.filter (fun x => (across x).isNone)).isEmpty = true
+    · simp only [he, ↓reduceIte] at hfirst; exact List.mem_of_mem_take hfirst
+    · simp only [he, ↓reduceIte] at hfirst; exact (List.mem_filter.mp hfirst).1
+  have hgen : ∀ (l : List Inst), (∀ x ∈ l, x ∈ set) →
+      l.flatMap (fun first => walk back set first fuel first) = l.flatMap (fun first => walk back set first N first) := by
+    intro l
+    induction l with
+    | nil => intro _; rfl
+    | cons a l ih =>
+      intro h
+      simp only [List.flatMap_cons]
+      rw [sort_terminates back N hinj hbound set a (hset a (h a (by simp))) fuel hfuel,
+        ih (fun x hx => h x (by simp [hx]))]
+  exact hgen _ hsub
 
 /-! non-vacuity: two chains 1→2→3 and 7→8 (`back`), set in the order 8 3 7 1 2 -/
 def bk : Inst → Option Inst := fun x => if x = 1 then some 2 else if x = 2 then some 3 else if x = 7 then some 8 else none
